@@ -22,8 +22,10 @@ Local Open Scope nat_scope.
    instructions between them.  [top_ok] leaves the CHILDREN ARBITRARY TREES (unknown
    namespaces, any depth, elements named message / presence / iq / body / error / failed at
    any depth) and demands only: (a) a child that the registry maps to a Go type is
-   well-typed for that type ([ext_ok]: forced by the proof, confirmed on the code - D18);
-   (b) children of <failed/> are listed conditions in the stanzas namespace (D23);
+   well-typed for that type ([ext_ok]: forced by the proof, confirmed on the code - D18;
+   modelled: MUC history conversions, Form name check below command);
+   (b) a child of <failed/> whose local name is a listed condition is in the stanzas
+   namespace (any other child of <failed/> is arbitrary; <failed h=.../> needs nothing);
    (c) the element's own uint attribute (h of a / resumed / resume, max of enabled) converts.
    Then successive NextPacket calls return exactly the packets of the elements, in order,
    then the close packet, then "connection closed". *)
@@ -99,27 +101,61 @@ Proof.
   intros. split; [apply stanza_loop_no_fuel | apply inner_loops_no_fuel].
 Qed.
 
-(* ATTRIBUTES FROM THE OWN TAG: the packet of an element does not depend on its content,
-   and each addressing attribute is the value of the LAST attribute of the start tag with
-   that local name (the code does not look at the attribute's namespace: finding
-   "qualified-attr-shadows"); absent => empty. *)
-Theorem C02_attrs_from_own_tag : forall n a cs cs',
-  pkts_of [NElem n a cs] = pkts_of [NElem n a cs'].
-Proof. reflexivity. Qed.
+(* ATTRIBUTES FROM THE OWN TAG: the packet of an element does not depend on its content;
+   each addressing attribute (type, id, from, to, lang - for message, presence AND iq) is
+   read from the element's own UNQUALIFIED attributes, xml:lang counting for lang:
+   - a namespace-qualified attribute (p:id, xmlns:id, ...; everything [attr_accepted]
+     rejects) never matters, wherever it stands (C02_attr_qualified_ignored /
+     C02_attr_only_accepted);
+   - the value is that of the last accepted attribute of that local name (C02_attr_value),
+     in particular of the unqualified one when it is the only such; absent => empty. *)
+Theorem C02_attrs_from_own_tag : forall n a cs cs' (q : attr) a1 a2,
+  pkts_of [NElem n a cs] = pkts_of [NElem n a cs'] /\
+  (attr_accepted q = false ->
+   pkts_of [NElem n (a1 ++ q :: a2) cs] = pkts_of [NElem n (a1 ++ a2) cs]).
+Proof.
+  intros. split; [reflexivity|]. intros Hq. unfold pkts_of. cbn [flat_map].
+  destruct (classify n) as [[k| | |p u]|e]; try reflexivity.
+  cbn [pkt_of_top]. unfold stanza_pkt, stanza_attrs.
+  now rewrite !(get_attr_qualified _ a1 q a2 Hq).
+Qed.
+
+Theorem C02_attr_qualified_ignored : forall l (a1 : list attr) x (a2 : list attr),
+  attr_accepted x = false -> get_attr l (a1 ++ x :: a2) = get_attr l (a1 ++ a2).
+Proof. exact get_attr_qualified. Qed.
+
+Theorem C02_attr_only_accepted : forall l (a : list attr),
+  get_attr l a = get_attr l (filter attr_accepted a).
+Proof. exact get_attr_filter. Qed.
 
 Theorem C02_attr_value : forall l (a1 : list attr) ns v (a2 : list attr),
-  (forall x : attr, In x a2 -> str_eqb (snd (fst x)) l = false) ->
+  attr_accepted ((ns, l), v) = true ->
+  (forall x : attr, In x a2 -> attr_accepted x && str_eqb (snd (fst x)) l = false) ->
   get_attr l (a1 ++ ((ns, l), v) :: a2) = v.
 Proof. exact get_attr_last. Qed.
 
 Theorem C02_attr_absent : forall l (a : list attr),
-  (forall x : attr, In x a -> str_eqb (snd (fst x)) l = false) -> get_attr l a = [].
+  (forall x : attr, In x a -> attr_accepted x && str_eqb (snd (fst x)) l = false) ->
+  get_attr l a = [].
 Proof. exact get_attr_absent. Qed.
+
+(* what is accepted: exactly the unqualified attributes and xml:lang *)
+Theorem C02_accepted_iff : forall ns l v,
+  attr_accepted ((ns, l), v) = true <->
+  ns = [] \/ ((str_eqb ns s_xml = true \/ str_eqb ns ns_xml = true) /\ str_eqb l s_lang = true).
+Proof.
+  intros ns l v. unfold attr_accepted. cbn [fst snd]. destruct ns as [|c ns'].
+  - cbn. split; auto.
+  - cbn [is_nil orb]. rewrite andb_true_iff, orb_true_iff. split.
+    + intros H. right. exact H.
+    + intros [H|H]; [discriminate | exact H].
+Qed.
 
 (* ---- witnesses ---- *)
 Definition cl (l : string) : name := (ns_client, bytes_of l).
 Definition un (l : string) : name := (bytes_of "u", bytes_of l).
 Definition at_ (l v : string) : attr := (([], bytes_of l), bytes_of v).
+Definition qat (ns l v : string) : attr := ((bytes_of ns, bytes_of l), bytes_of v).
 
 (* D3: <message><x xmlns='u'><message xmlns='jabber:client'/></x></message><presence/> *)
 Definition d3_witness : list node :=
@@ -150,7 +186,9 @@ Proof. split; vm_compute; reflexivity. Qed.
    extension, an error child, white space and a comment between elements *)
 Definition example_items : list node :=
   [ NText (bytes_of " ");
-    NElem (cl "message") [at_ "id" "m1"; at_ "to" "a@b"; at_ "type" "chat"]
+    NElem (cl "message") [qat "xmlns" "id" "urn:q"; at_ "id" "m1"; qat "urn:q" "id" "other";
+                          at_ "to" "a@b"; at_ "type" "chat"; (((ns_xml, s_lang), bytes_of "en") : attr);
+                          qat "urn:q" "lang" "xx"]
       [ NElem (cl "body") [] [NText (bytes_of "hi")];
         NElem (bytes_of "urn:xmpp:carbons:2", bytes_of "sent") []
           [ NElem forwarded_name []
@@ -164,14 +202,19 @@ Definition example_items : list node :=
         NElem (cl "error") [at_ "type" "cancel"] [NElem (cl "error") [] []] ];
     NElem (ns_stream, bytes_of "features") [] [NElem starttls_name [] [NElem starttls_name [] []]];
     NElem (ns_sm, bytes_of "a") [at_ "h" "7"] [];
-    NElem (ns_sm, bytes_of "failed") [] [NElem (ns_stanzas, bytes_of "conflict") [] []] ].
+    NElem (ns_sm, bytes_of "failed") [at_ "h" "x"]
+      [ NElem (ns_stanzas, bytes_of "conflict") [] [];
+        NElem (ns_stanzas, bytes_of "item-not-found") [] [NElem (ns_sm, bytes_of "failed") [] []] ] ].
 
 Example C02_example :
   forallb (top_ok registry) example_items = true /\
   List.length (pkts_of example_items) = 5 /\
+  hd PClose (pkts_of example_items)
+  = PMessage {| a_type := bytes_of "chat"; a_id := bytes_of "m1"; a_from := [];
+                a_to := bytes_of "a@b"; a_lang := bytes_of "en" |} /\
   run_packets registry true (flatten_all example_items ++ [TEnd stream_name])
   = pkts_of example_items ++ [PClose; Err EEof].
-Proof. split; [|split]; vm_compute; reflexivity. Qed.
+Proof. split; [|split; [|split]]; vm_compute; reflexivity. Qed.
 
 Print Assumptions C02_framing.
 Print Assumptions C02_framing_eof.
@@ -184,6 +227,9 @@ Print Assumptions C02_run_shape.
 Print Assumptions C02_terminates.
 Print Assumptions C02_loops_terminate.
 Print Assumptions C02_attrs_from_own_tag.
+Print Assumptions C02_attr_qualified_ignored.
+Print Assumptions C02_attr_only_accepted.
+Print Assumptions C02_accepted_iff.
 Print Assumptions C02_attr_value.
 Print Assumptions C02_attr_absent.
 Print Assumptions C02_unrepaired_refuted.
